@@ -2734,11 +2734,21 @@ retransmit_all_tcp_requests_for(struct nameserver *server)
 	int i = 0;
 	for (i = 0; i < server->base->n_req_heads; ++i) {
 		struct request *started_at = server->base->req_heads[i];
-		struct request *req = started_at;
+		struct request *req = started_at, *next;
+		int n = 0;
 		if (!req)
 			continue;
 
+		/* request_finished() unlinks and frees the request (and may
+		 * append promoted requests to the list): count the requests
+		 * first and fetch the successor before touching one. */
 		do {
+			++n;
+			req = req->next;
+		} while (req != started_at);
+
+		for (; n > 0; --n, req = next) {
+			next = req->next;
 			if (req->ns == server && (req->handle->tcp_flags & DNS_QUERY_USEVC)) {
 				if (req->tx_count >= req->base->global_max_retransmits) {
 					log(EVDNS_LOG_DEBUG, "Giving up on request %p; tx_count==%d",
@@ -2750,8 +2760,7 @@ retransmit_all_tcp_requests_for(struct nameserver *server)
 					evdns_request_transmit(req);
 				}
 			}
-			req = req->next;
-		} while (req != started_at);
+		}
 	}
 }
 
